@@ -366,10 +366,11 @@ package stake
 // ---- queries (C19, C06): the state read is the one committed at the requested height, through a fresh
 // historical view; no overlay, ledger or controller state is written
 //@ func (ctrler *StakeCtrler) Query(req)
+//@   nopanic
 //@   objinv ctrler != nil && ctrler.delegateeLedger != nil && ctrler.rewardLedger != nil && ctrler.govParams != nil
 //@   assumes !cons_ok
 //@   modifies everything
-//@   preserves allmaps(memItems.gotItems), allmaps(memItems.updatedItems), memItems.*, allelems(memItems.removedKeys), FinalityLedger.*, SimpleLedger.*, MemLedger.*, StakeCtrler.*, GovCtrler.*, AcctCtrler.*, GovParams.*, cons_ok, deadobj
+//@   preserves allmaps(memItems.gotItems), allmaps(memItems.updatedItems), memItems.*, allelems(memItems.removedKeys), FinalityLedger.*, SimpleLedger.*, MemLedger.*, StakeCtrler.*, GovCtrler.*, AcctCtrler.*, GovParams.*, RigoApp.*, cons_ok, deadobj
 //@   assert@call(ImmutableLedgerAt,0): $arg0 == req.Height && $target == ctrler.rewardLedger                  [C19]
 //@   assert@call(ImmutableLedgerAt,1): $arg0 == req.Height && $target == ctrler.delegateeLedger               [C19]
 //@   assert@call(ImmutableLedgerAt,2): $arg0 == req.Height && $target == ctrler.delegateeLedger               [C19]
